@@ -515,6 +515,42 @@ pub fn family_l(thorough: bool, seed: u64, f: &mut dyn FnMut(Input)) {
     }
 }
 
+/// Family W: wide match windows (2 000 - 11 000 characters) with short needles, built so that the
+/// forward-greedy alignment is far from optimal: the matrix path must still be taken and must still equal
+/// the full recurrence (C04), a silent fallback to the greedy algorithm shows as a lower score.
+pub fn family_w(thorough: bool, seed: u64, f: &mut dyn FnMut(Input)) {
+    let mut rng = StdRng::seed_from_u64(seed ^ 0x57);
+    let all = cfgs();
+    let mut lens = vec![2049usize, 2050, 2500, 4000, 8000, 8700];
+    if thorough {
+        lens.extend([2047, 2048, 3000, 5000, 6000, 7000, 8500, 10000, 11000, 12000, 20000, 33000]);
+    }
+    for h in lens {
+        for uni in [false, true] {
+            for k in 0..(if thorough { 4 } else { 2 }) {
+                let cfg = if k == 0 { Cfg { ic: true, nz: true, paths: false } } else { *all.choose(&mut rng).unwrap() };
+                let nl = rng.gen_range(2..=3);
+                let needle: Vec<char> = "abc".chars().take(nl).collect();
+                let filler: Vec<char> = if uni { "xyz_ä".chars().collect() } else { "xyz_-".chars().collect() };
+                let mut hay: Vec<char> = (0..h).map(|_| *filler.choose(&mut rng).unwrap()).collect();
+                // a scattered (bad) occurrence near the start ...
+                let mut p = 0;
+                for &c in &needle {
+                    hay[p] = c;
+                    p += rng.gen_range(2..40);
+                }
+                // ... and a contiguous word-boundary occurrence at the very end
+                let e = h - nl - 1;
+                hay[e] = ' ';
+                for (j, &c) in needle.iter().enumerate() {
+                    hay[e + 1 + j] = if j == nl - 1 && cfg.ic && rng.gen_bool(0.5) { c.to_ascii_uppercase() } else { c };
+                }
+                f(Input { fam: "W", cfg, hay, needle });
+            }
+        }
+    }
+}
+
 pub struct Plan {
     pub tier: String,
     pub seed: u64,
@@ -527,6 +563,9 @@ pub fn generate(plan: &Plan, sink: &mut dyn FnMut(Input)) {
     let want = |f: &str| plan.only.as_deref().map_or(true, |o| o.contains(f));
     if want("L") {
         family_l(thorough, plan.seed, sink);
+    }
+    if want("W") {
+        family_w(thorough, plan.seed, sink);
     }
     if want("E") {
         let a1: Vec<char> = "abA-/ 1".chars().collect();
